@@ -4,7 +4,7 @@
    (More than once only if two catalogue paths of one action reach the same leaf; the generated catalogue has no such
    pair, but the statement does not depend on that.) *)
 From Coq Require Import List NArith ZArith Bool String Lia.
-From Verif Require Import lib.Json gen.MigrationTable model.Migrate proofs.MigrateProofs.
+From Verif Require Import lib.Json gen.MigrationTable model.Migrate model.MigrateValid proofs.MigrateProofs proofs.MigrateValidProofs.
 Import ListNotations.
 Open Scope N_scope.
 
@@ -171,3 +171,337 @@ Section Txr.
       + destruct (visit tx (r0 :: rem0) st v) as [l1 v']. cbn [fst snd] in *. auto.
   Qed.
 End Txr.
+
+(* ---- the frame of a migration: what lies outside the members migrations are written for ------------------------------- *)
+
+(* the first steps of the catalogue's paths: the only members of an action / a router Migrate13_3 can reach *)
+Definition heads (tab : list (string * list string)) : list str :=
+  flat_map (fun row : string * list string =>
+              flat_map (fun p => match steps_of p with Some (sel :: _) => [sel] | _ => [] end) (snd row)) tab.
+Definition action_heads : list str := heads catalog_actions.
+Definition router_heads : list str := heads catalog_routers.
+
+Lemma catalog_paths_head : forall tab t p sel rem,
+  In p (catalog_paths tab t) -> steps_of p = Some (sel :: rem) -> In sel (heads tab).
+Proof.
+  intros tab t p sel rem Hp Hs. induction tab as [|[k ps] tab IH]; [contradiction|].
+  unfold heads. cbn [flat_map snd]. apply in_or_app. cbn [catalog_paths] in Hp. destruct (str_eqb (s k) t).
+  - left. apply in_flat_map. exists p. split; [exact Hp|]. rewrite Hs. now left.
+  - right. now apply IH.
+Qed.
+
+Section Frame.
+  Variable tx : str -> str.
+
+  Definition action_footprint : list str := [k_templating; k_template; k_template_variables; k_name; k_category].
+  Definition router_footprint : list str := [k_result_name; k_categories].
+  Definition flow_footprint : list str := [k_nodes; k_localization; k_language; k_spec_version].
+
+  (* outside the footprint a member keeps its shape and its texts, up to tx; if no catalogue path starts at it, it
+     is the same *)
+  Definition obj_frame (fp hd : list str) (a a' : obj) : Prop :=
+    (forall k, ~ In k fp -> orel tx (olookup k a) (olookup k a'))
+    /\ (forall k, ~ In k fp -> ~ In k hd -> olookup k a' = olookup k a).
+
+  Definition lifted (R : obj -> obj -> Prop) (x y : json) : Prop :=
+    match x, y with JObj a, JObj b => R a b | _, _ => x = y end.
+  Definition arr_frame (R : json -> json -> Prop) (x y : json) : Prop :=
+    match x, y with JArr l, JArr l' => Forall2 R l l' | _, _ => x = y end.
+  Definition member_frame (k : str) (R : json -> json -> Prop) (a a' : obj) : Prop :=
+    match olookup k a, olookup k a' with
+    | Some x, Some y => R x y
+    | None, None => True
+    | _, _ => False
+    end.
+
+  Definition node_frame (n n' : obj) : Prop :=
+    (forall k, k <> k_actions -> k <> k_router -> olookup k n' = olookup k n)
+    /\ member_frame k_actions (arr_frame (lifted (obj_frame action_footprint action_heads))) n n'
+    /\ member_frame k_router (lifted (obj_frame router_footprint router_heads)) n n'.
+
+  Definition flow_frame (f f' : obj) : Prop :=
+    (forall k, ~ In k flow_footprint -> olookup k f' = olookup k f)
+    /\ member_frame k_nodes (arr_frame (lifted node_frame)) f f'.
+
+  (* reflexivity, transitivity *)
+  Definition refl_rel {A} (R : A -> A -> Prop) := forall x, R x x.
+  Definition trans_rel {A} (R : A -> A -> Prop) := forall x y z, R x y -> R y z -> R x z.
+
+  Lemma obj_frame_refl : forall fp hd, refl_rel (obj_frame fp hd).
+  Proof. intros fp hd a. split; [intros k _; apply orel_refl | reflexivity]. Qed.
+  Lemma obj_frame_trans : forall fp hd, trans_rel (obj_frame fp hd).
+  Proof.
+    intros fp hd a b c [H1 H1'] [H2 H2']. split.
+    - intros k Hk. eapply orel_trans; [apply H1 | apply H2]; exact Hk.
+    - intros k Hk Hh. now rewrite H2', H1'.
+  Qed.
+
+  Lemma lifted_refl : forall R, refl_rel R -> refl_rel (lifted R).
+  Proof. intros R H x. destruct x; cbn; auto. Qed.
+  Lemma lifted_trans : forall R, trans_rel R -> trans_rel (lifted R).
+  Proof.
+    intros R H x y z H1 H2. destruct x, y, z; cbn in *; try congruence. eapply H; eassumption.
+  Qed.
+
+  Lemma Forall2_refl : forall {A} (R : A -> A -> Prop), refl_rel R -> forall l, Forall2 R l l.
+  Proof. intros A R H l. induction l; constructor; auto. Qed.
+  Lemma Forall2_trans : forall {A} (R : A -> A -> Prop), trans_rel R -> trans_rel (Forall2 R).
+  Proof.
+    intros A R H x y z H1. revert z. induction H1 as [|a b l l' Hab _ IH]; intros z H2; inversion H2; subst; constructor.
+    - eapply H; eassumption.
+    - now apply IH.
+  Qed.
+
+  Lemma arr_frame_refl : forall R, refl_rel R -> refl_rel (arr_frame R).
+  Proof. intros R H x. destruct x; cbn; auto. now apply Forall2_refl. Qed.
+  Lemma arr_frame_trans : forall R, trans_rel R -> trans_rel (arr_frame R).
+  Proof.
+    intros R H x y z H1 H2. destruct x, y, z; cbn in *; try congruence. eapply (Forall2_trans R H); eassumption.
+  Qed.
+
+  Lemma member_frame_refl : forall k R, refl_rel R -> refl_rel (member_frame k R).
+  Proof. intros k R H a. unfold member_frame. destruct (olookup k a); auto. Qed.
+  Lemma member_frame_trans : forall k R, trans_rel R -> trans_rel (member_frame k R).
+  Proof.
+    intros k R H a b c. unfold member_frame.
+    destruct (olookup k a), (olookup k b), (olookup k c); try tauto. apply H.
+  Qed.
+
+  Lemma node_frame_refl : refl_rel node_frame.
+  Proof.
+    intro n. split; [reflexivity|]. split.
+    - apply member_frame_refl, arr_frame_refl, lifted_refl, obj_frame_refl.
+    - apply member_frame_refl, lifted_refl, obj_frame_refl.
+  Qed.
+  Lemma node_frame_trans : trans_rel node_frame.
+  Proof.
+    intros a b c [H1 [H2 H3]] [H4 [H5 H6]]. split; [|split].
+    - intros k Ha Hr. now rewrite H4, H1.
+    - eapply member_frame_trans; [apply arr_frame_trans, lifted_trans, obj_frame_trans | exact H2 | exact H5].
+    - eapply member_frame_trans; [apply lifted_trans, obj_frame_trans | exact H3 | exact H6].
+  Qed.
+
+  Lemma flow_frame_refl : refl_rel flow_frame.
+  Proof. intro f. split; [reflexivity|]. apply member_frame_refl, arr_frame_refl, lifted_refl, node_frame_refl. Qed.
+  Lemma flow_frame_trans : trans_rel flow_frame.
+  Proof.
+    intros a b c [H1 H2] [H3 H4]. split.
+    - intros k Hk. now rewrite H3, H1.
+    - eapply member_frame_trans; [apply arr_frame_trans, lifted_trans, node_frame_trans | exact H2 | exact H4].
+  Qed.
+
+  (* traversals *)
+  Lemma on_array_member_rel : forall {S} k (step : S -> obj -> S * obj) (R : obj -> obj -> Prop) st o,
+    refl_rel R -> (forall st a, R a (snd (step st a))) ->
+    member_frame k (arr_frame (lifted R)) o (snd (on_array_member k step st o)).
+  Proof.
+    intros S k step R st o Hr Hs. unfold on_array_member.
+    destruct (olookup k o) as [[| | | |l|]|] eqn:E; cbn [snd];
+      try (apply member_frame_refl, arr_frame_refl, lifted_refl, Hr).
+    unfold on_objects.
+    pose proof (map_st_rel (lifted R)
+                  (fun st x => match x with JObj o0 => let '(st', o') := step st o0 in (st', JObj o') | _ => (st, x) end) l st) as Hm.
+    destruct (map_st _ st l) as [st' l']. cbn [snd] in *. unfold member_frame. rewrite E, olookup_oset_same. cbn [arr_frame].
+    apply Hm. intros st0 x. destruct x; cbn; auto. specialize (Hs st0 kv). destruct (step st0 kv) as [s1 o1]. exact Hs.
+  Qed.
+
+  Lemma on_object_member_rel : forall {S} k (step : S -> obj -> S * obj) (R : obj -> obj -> Prop) st o,
+    refl_rel R -> (forall st a, R a (snd (step st a))) ->
+    member_frame k (lifted R) o (snd (on_object_member k step st o)).
+  Proof.
+    intros S k step R st o Hr Hs. unfold on_object_member.
+    destruct (olookup k o) as [[| | | | |x]|] eqn:E; cbn [snd]; try (apply member_frame_refl, lifted_refl, Hr).
+    specialize (Hs st x). destruct (step st x) as [st' x']. cbn [snd] in *. unfold member_frame.
+    rewrite E, olookup_oset_same. exact Hs.
+  Qed.
+
+  Lemma same_outside_frame : forall fp hd a a', (forall k, ~ In k fp -> olookup k a' = olookup k a) -> obj_frame fp hd a a'.
+  Proof. intros fp hd a a' H. split; [intros k Hk; rewrite (H k Hk); apply orel_refl | intros k Hk _; now apply H]. Qed.
+
+  (* a migration that loops over the nodes with a step that respects node_frame *)
+  Lemma nodes_migration_frame : forall (node_step : mstate -> obj -> mstate * obj),
+    (forall st n, node_frame n (snd (node_step st n))) ->
+    forall fr f, flow_frame f (fst (with_localization (on_array_member k_nodes node_step) fr f)).
+  Proof.
+    intros node_step Hs fr f. unfold with_localization.
+    pose proof (on_array_member_rel k_nodes node_step node_frame (fr, get_obj k_localization f) f node_frame_refl Hs) as Hn.
+    pose proof (on_array_member_other k_nodes node_step (fr, get_obj k_localization f) f) as Ho.
+    destruct (on_array_member k_nodes node_step (fr, get_obj k_localization f) f) as [[fr' loc'] f']. cbn [fst snd] in *.
+    assert (Hk : forall k, ~ In k flow_footprint -> k <> k_nodes /\ k <> k_localization).
+    { intros k Hk. split; intro E; subst; apply Hk; cbn; tauto. }
+    destruct loc' as [l|]; split.
+    - intros k Hin. destruct (Hk k Hin). rewrite olookup_oset_other by congruence. now apply Ho.
+    - unfold member_frame in *. now rewrite olookup_oset_other by key_neq.
+    - intros k Hin. destruct (Hk k Hin). now apply Ho.
+    - exact Hn.
+  Qed.
+
+  (* node steps *)
+  Lemma actions_only_node_frame : forall (step : mstate -> obj -> mstate * obj),
+    (forall st a, obj_frame action_footprint action_heads a (snd (step st a))) ->
+    forall st n, node_frame n (snd (on_array_member k_actions step st n)).
+  Proof.
+    intros step Hs st n. split; [|split].
+    - intros k Ha _. now apply on_array_member_other.
+    - apply on_array_member_rel; [apply obj_frame_refl | exact Hs].
+    - unfold member_frame. rewrite on_array_member_other by key_neq.
+      destruct (olookup k_router n) as [x|]; [|exact I]. apply lifted_refl, obj_frame_refl.
+  Qed.
+
+  Lemma actions_router_node_frame : forall (fa fr : mstate -> obj -> mstate * obj),
+    (forall st a, obj_frame action_footprint action_heads a (snd (fa st a))) ->
+    (forall st r, obj_frame router_footprint router_heads r (snd (fr st r))) ->
+    forall st n, node_frame n (snd (let '(st1, n1) := on_array_member k_actions fa st n in on_object_member k_router fr st1 n1)).
+  Proof.
+    intros fa fr Ha Hr st n.
+    pose proof (actions_only_node_frame fa Ha st n) as H1.
+    destruct (on_array_member k_actions fa st n) as [st1 n1]. cbn [snd] in H1.
+    eapply node_frame_trans; [exact H1|]. split; [|split].
+    - intros k _ Hk. now apply on_object_member_other.
+    - unfold member_frame. rewrite on_object_member_other by key_neq.
+      destruct (olookup k_actions n1) as [x|]; [|exact I]. apply arr_frame_refl, lifted_refl, obj_frame_refl.
+    - apply on_object_member_rel; [apply obj_frame_refl | exact Hr].
+  Qed.
+
+  Ltac outside := apply same_outside_frame; intros k Hk;
+    repeat first [rewrite olookup_oset_other by (intro; subst; apply Hk; cbn; tauto)
+                 | rewrite olookup_odel_other by (intro; subst; apply Hk; cbn; tauto)]; reflexivity.
+
+  Lemma step_13_1_frame : forall st a, obj_frame action_footprint action_heads a (snd (step_13_1 st a)).
+  Proof.
+    intros st a. unfold step_13_1. destruct (is_type "send_msg" a); [|apply obj_frame_refl].
+    destruct (get_obj k_templating a); [|apply obj_frame_refl]. destruct (next_uuid (fst st)). cbn [snd]. outside.
+  Qed.
+
+  Lemma step_13_4_frame : forall st a, obj_frame action_footprint action_heads a (snd (step_13_4 st a)).
+  Proof.
+    intros st a. unfold step_13_4. destruct (is_type "send_msg" a); [|apply obj_frame_refl].
+    destruct (get_obj k_templating a); [|apply obj_frame_refl]. destruct (next_uuid (fst st)). cbn [snd]. outside.
+  Qed.
+
+  Lemma step_13_5_frame : forall st a, obj_frame action_footprint action_heads a (snd (step_13_5 st a)).
+  Proof.
+    intros st a. unfold step_13_5. destruct (is_type "send_msg" a); [|apply obj_frame_refl].
+    destruct (get_obj k_templating a); [|apply obj_frame_refl]. cbn [snd]. outside.
+  Qed.
+
+  Lemma limit_member_outside : forall fp hd k max o, In k fp -> obj_frame fp hd o (limit_member k max o).
+  Proof.
+    intros fp hd k max o Hin. unfold limit_member. destruct (get_str k o) as [v|]; [|apply obj_frame_refl].
+    destruct (max <? utf8_len v); [|apply obj_frame_refl]. apply same_outside_frame. intros k' Hk'.
+    apply olookup_oset_other. intro; subst; contradiction.
+  Qed.
+
+  Lemma action_13_6_frame : forall st a, obj_frame action_footprint action_heads a (snd (action_13_6 st a)).
+  Proof.
+    intros st a. unfold action_13_6. destruct (is_type "set_run_result" a); cbn [snd]; [|apply obj_frame_refl].
+    eapply obj_frame_trans; apply limit_member_outside; cbn; tauto.
+  Qed.
+
+  Lemma router_13_6_frame : forall st r, obj_frame router_footprint router_heads r (snd (router_13_6 st r)).
+  Proof.
+    intros st r. unfold router_13_6.
+    eapply obj_frame_trans; [apply (limit_member_outside router_footprint router_heads k_result_name); cbn; tauto|].
+    apply same_outside_frame. intros k Hk. apply on_array_member_other. intro; subst; apply Hk; cbn; tauto.
+  Qed.
+
+  Lemma rewrite_templates_frame : forall fp tab t loc o p,
+    In p (catalog_paths tab t) ->
+    match steps_of p with Some (sel :: _) => str_eqb sel star = false | _ => True end ->
+    obj_frame fp (heads tab) o (snd (rewrite_templates tx loc o p)).
+  Proof.
+    intros fp tab t loc o p Hp Hstar. unfold rewrite_templates. fold (steps_of p).
+    destruct (steps_of p) as [steps|] eqn:Es; [|apply obj_frame_refl].
+    pose proof (visit_txr tx steps loc (JObj o)) as Hv.
+    destruct (visit tx steps loc (JObj o)) as [loc' j] eqn:Ev. cbn [snd] in *.
+    destruct j as [| | | | |o']; try contradiction. split.
+    - intros k _. apply txr_lookup. now apply txr_obj_unfold.
+    - intros k _ Hh. destruct steps as [|sel rem]; [cbn in Ev; now inversion Ev|].
+      apply (visit_obj_other tx sel rem loc o k Hstar); [|now rewrite Ev].
+      destruct (str_eqb k sel) eqn:E; [|reflexivity]. apply str_eqb_eq in E. subst k.
+      exfalso. apply Hh. eapply catalog_paths_head; eassumption.
+  Qed.
+
+  Lemma rewrite_all_frame : forall fp tab st o,
+    (forall p, In p (catalog_paths tab (type_of o)) ->
+               match steps_of p with Some (sel :: _) => str_eqb sel star = false | _ => True end) ->
+    obj_frame fp (heads tab) o (snd (rewrite_all tx tab st o)).
+  Proof.
+    intros fp tab st o Hstar. unfold rewrite_all.
+    assert (H : forall ps acc, (forall p, In p ps -> In p (catalog_paths tab (type_of o))) ->
+                 obj_frame fp (heads tab) (snd acc)
+                 (snd (fold_left (fun (acc : option obj * obj) p => rewrite_templates tx (fst acc) (snd acc) p) ps acc))).
+    { induction ps as [|p ps IH]; intros acc Hin; [apply obj_frame_refl|]. cbn [fold_left].
+      eapply obj_frame_trans; [|apply IH; intros q Hq; apply Hin; now right].
+      apply (rewrite_templates_frame fp tab (type_of o)); [apply Hin; now left | apply Hstar, Hin; now left]. }
+    specialize (H (catalog_paths tab (type_of o)) (snd st, o) (fun p Hp => Hp)).
+    destruct (fold_left _ (catalog_paths tab (type_of o)) (snd st, o)) as [loc' o']. exact H.
+  Qed.
+
+  Lemma catalog_no_star_actions : forall t p, In p (catalog_paths catalog_actions t) ->
+    match steps_of p with Some (sel :: _) => str_eqb sel star = false | _ => True end.
+  Proof.
+    intros t p Hp. pose proof catalog_frame_true as Hc. unfold catalog_frame in Hc. apply andb_true_iff in Hc. destruct Hc as [Hc _].
+    pose proof (catalog_paths_row catalog_actions t p action_steps_ok Hc Hp) as H.
+    destruct (steps_of p) as [[|sel rem]|]; try exact I. cbn [action_steps_ok] in H.
+    apply andb_true_iff in H. destruct H as [H _]. apply andb_true_iff in H. destruct H as [H _].
+    apply andb_true_iff in H. destruct H as [H _]. now apply negb_true_iff in H.
+  Qed.
+
+  Lemma catalog_no_star_routers : forall t p, In p (catalog_paths catalog_routers t) ->
+    match steps_of p with Some (sel :: _) => str_eqb sel star = false | _ => True end.
+  Proof.
+    intros t p Hp. pose proof catalog_frame_true as Hc. unfold catalog_frame in Hc. apply andb_true_iff in Hc. destruct Hc as [_ Hc].
+    pose proof (catalog_paths_row catalog_routers t p (fun _ => router_steps_ok) Hc Hp) as H.
+    destruct (steps_of p) as [[|sel rem]|]; try exact I. cbn [router_steps_ok] in H.
+    apply andb_true_iff in H. destruct H as [H _]. apply andb_true_iff in H. destruct H as [H _]. now apply negb_true_iff in H.
+  Qed.
+
+  (* every transcribed migration respects the frame *)
+  Lemma known_migration_frame : forall name m, migration_of_name name = Some m ->
+    forall fr f, flow_frame f (fst (m tx fr f)).
+  Proof.
+    intros name m. unfold migration_of_name.
+    destruct (String.eqb name "Migrate13_1"); [intro H; inversion H; subst; intros; apply nodes_migration_frame, actions_only_node_frame, step_13_1_frame|].
+    destruct (String.eqb name "Migrate13_2").
+    { intro H; inversion H; subst. intros fr f. unfold migrate_13_2. destruct (Nat.eqb _ 3); cbn [fst]; [apply flow_frame_refl|].
+      destruct (get_obj k_localization (oset k_language (JStr und) f)); split;
+        try (intros k Hk; rewrite !olookup_oset_other by (intro; subst; apply Hk; cbn; tauto); reflexivity);
+        unfold member_frame; rewrite !olookup_oset_other by key_neq;
+        (destruct (olookup k_nodes f); [apply arr_frame_refl, lifted_refl, node_frame_refl | exact I]). }
+    destruct (String.eqb name "Migrate13_3").
+    { intro H; inversion H; subst. intros. apply nodes_migration_frame. unfold node_13_3.
+      apply actions_router_node_frame; intros; apply rewrite_all_frame;
+        [apply catalog_no_star_actions | apply catalog_no_star_routers]. }
+    destruct (String.eqb name "Migrate13_4"); [intro H; inversion H; subst; intros; apply nodes_migration_frame, actions_only_node_frame, step_13_4_frame|].
+    destruct (String.eqb name "Migrate13_5"); [intro H; inversion H; subst; intros; apply nodes_migration_frame, actions_only_node_frame, step_13_5_frame|].
+    destruct (String.eqb name "Migrate13_6"); [|discriminate].
+    intro H; inversion H; subst. intros. apply nodes_migration_frame. unfold node_13_6.
+    apply actions_router_node_frame; [apply action_13_6_frame | apply router_13_6_frame].
+  Qed.
+
+  Lemma apply_versions_frame : forall steps fr f j' fr',
+    apply_versions tx steps fr f = (MOut j', fr') -> exists f', j' = JObj f' /\ flow_frame f f'.
+  Proof.
+    induction steps as [|[v name] rest IH]; intros fr f j' fr' H; cbn [apply_versions] in H.
+    - inversion H; subst. exists f. split; [reflexivity | apply flow_frame_refl].
+    - destruct (migration_of_name name) as [m|] eqn:Em; [|discriminate].
+      pose proof (known_migration_frame name m Em fr f) as Hm. destruct (m tx fr f) as [f1 fr1]. cbn [fst] in Hm.
+      apply IH in H. destruct H as [f' [-> Hf]]. exists f'. split; [reflexivity|].
+      eapply flow_frame_trans; [exact Hm|]. eapply flow_frame_trans; [|exact Hf]. split.
+      + intros k Hk. apply olookup_oset_other. intro; subst; apply Hk; cbn; tauto.
+      + unfold member_frame. rewrite olookup_oset_other by key_neq.
+        destruct (olookup k_nodes f1); [apply arr_frame_refl, lifted_refl, node_frame_refl | exact I].
+  Qed.
+
+  (* outside the members the migrations are written for, a migrated definition is the source up to tx *)
+  Lemma migrate_frame : forall j to fr j' fr',
+    migrate_to tx j to fr = (MOut j', fr') -> exists f f', j = JObj f /\ j' = JObj f' /\ flow_frame f f'.
+  Proof.
+    intros j to fr j' fr' H. unfold migrate_to, migrate_with in H.
+    destruct (header_version j) as [from|] eqn:Hh; [|destruct j; discriminate].
+    destruct (header_is_object _ _ Hh) as [f ->].
+    destruct (select_versions registered from to) as [|s0 steps]; [discriminate|].
+    apply apply_versions_frame in H. destruct H as [f' [-> Hf]]. eauto.
+  Qed.
+End Frame.
